@@ -1416,6 +1416,8 @@ def run(ctx):
         "Model/C16.v is hand-written; tied to mcsolve.py by the bit-exact trace correspondence on "
         "PrimFloat; the generator algebra is tied by tools/tx_c16_rhs.py",
         "independent reference of the oracle: scipy.integrate.solve_ivp(DOP853, rtol 1e-11) and brentq",
+        "nm_mcsolve (influence martingale, completion operator, trace-weighted averages) is covered by "
+        "the implementation-level oracle only: no Coq model",
     ]
     props = ["Props/C16.v"]
     targets = ["Props/C16.vo"]
@@ -1536,8 +1538,34 @@ def run(ctx):
             % (n_sys, ntraj, njump, time.time() - t_or))
     ctx.cov["traces_validated_against_impl"] += ntraj
 
+    # ---- nm_mcsolve: jump process with shifted rates, influence martingale,
+    #      trace-weighted averages
+    n_nm = 10 if ctx.quick else 80
+    nm_traj = 0
+    nm_jumps = 0
+    for i in range(n_nm):
+        spec = gen_nm_system(rng)
+        dist["system_kind"][spec["kind"]] = dist["system_kind"].get(spec["kind"], 0) + 1
+        import warnings
+        with warnings.catch_warnings():
+            warnings.simplefilter("ignore")
+            try:
+                bad, st = with_timeout(30, check_nm, spec)
+            except _Timeout:
+                bad, st = [("nm-raised:Timeout", "nm_mcsolve did not finish within 30 s", {})], \
+                    {"traj": 0, "jumps": 0}
+        nm_traj += st["traj"]
+        nm_jumps += st["jumps"]
+        ctx.count_case(("nm", json.dumps(spec_to_json(spec), sort_keys=True)), nontrivial=st["jumps"] > 0)
+        for sig, message, det in bad[:2]:
+            ctx.violation("nm_mcsolve:trajectory-oracle", sig, message,
+                          {"kind": "nm", "spec": spec_to_json(spec), "detail": det})
+    ctx.log("nm_mcsolve oracle: %d systems, %d trajectories, %d collapses" % (n_nm, nm_traj, nm_jumps))
+    ctx.cov["traces_validated_against_impl"] += nm_traj
+
     # ---- exploration (labelled): ensemble mean vs mesolve
     explore_ensemble(ctx, rng)
+    explore_nm_ensemble(ctx, rng)
 
     ctx.cov["input_distribution"] = dist
     ctx.cov["explanation"] = (
@@ -1659,6 +1687,13 @@ def replay(ctx, payload):
         for sig, message, det in bad[:2]:
             site, sig = classify(spec, sig)
             ctx.violation(site, sig, message, {"kind": "system", "spec": d["spec"], "detail": det})
+    elif kind == "nm":
+        spec = spec_from_json(d["spec"])
+        bad, st = check_nm(spec)
+        for sig, message, det in bad[:2]:
+            ctx.violation(payload["site"], sig, message, {"kind": "nm", "spec": d["spec"], "detail": det})
+    elif kind == "nm-ensemble":
+        explore_nm_ensemble(ctx, random.Random(payload.get("seed", 0)))
     elif kind == "mcstep":
         bad = check_mcstep(d["method"], d["t0"], random.Random(0))
         for sig, message, det in bad:
@@ -1669,3 +1704,256 @@ def replay(ctx, payload):
             ctx.violation(payload["site"], payload["signature"], msg, d)
     elif kind == "ensemble":
         explore_ensemble(ctx, random.Random(payload.get("seed", 0)))
+
+
+# ===================================================================
+# nm_mcsolve: influence martingale and trace weighting (implementation level)
+# ===================================================================
+class _Rate:
+    """gamma(t) = c0 + c1*sin(w*t + ph); picklable, callable as a coefficient."""
+
+    def __init__(self, c0, c1, w, ph):
+        self.c0, self.c1, self.w, self.ph = c0, c1, w, ph
+
+    def __call__(self, t):
+        return self.c0 + self.c1 * math.sin(self.w * t + self.ph)
+
+
+def gen_nm_system(rng):
+    g = lambda lo, hi: dy(rng, lo, hi, 6)
+    kind = rng.choice(["pm", "pauli", "incomplete"])
+    H0 = 0.5 * g(0.5, 2.0) * SZ + g(0.0, 1.0) * SX
+    if kind == "pm":
+        ops = [SM.T.conj(), SM]
+    elif kind == "pauli":
+        ops = [SX, SY, SZ]
+    else:
+        ops = [SM.T.conj()]
+    rates = []
+    for k in range(len(ops)):
+        if k == 0 and kind != "pauli":
+            rates.append((g(0.5, 1.5), 0.0, 0.0, 0.0))
+        else:
+            rates.append((g(-0.1, 0.5), g(0.1, 0.6), g(0.5, 3.0), g(0.0, 3.0)))
+    if kind == "incomplete":
+        rates[0] = (g(0.2, 0.8), g(0.3, 1.0), g(1.0, 3.0), g(0.0, 3.0))
+    v = np.array([complex(rng.randint(-3, 3), rng.randint(-3, 3)) for _ in range(2)])
+    if np.linalg.norm(v) == 0:
+        v[0] = 1.0
+    nt = rng.randint(3, 6)
+    T = g(1.5, 4.0)
+    return {"kind": "nm_" + kind, "d": 2, "H0": H0, "ops": ops, "rates": rates,
+            "psi0": v / np.linalg.norm(v), "tlist": [T * k / nt for k in range(nt + 1)],
+            "method": rng.choice(["adams", "vern7", "dop853"]),
+            "norm_tol": rng.choice([1e-4, 1e-6]), "norm_t_tol": rng.choice([1e-6, 1e-8]),
+            "norm_steps": rng.choice([5, 8]), "ntraj": rng.randint(4, 7),
+            "seed": rng.randrange(1 << 30)}
+
+
+class NmRef(RefSystem):
+    """reference for the jump process nm_mcsolve samples: collapse operators
+    sqrt(gamma_k(t) + shift(t)) L_k with shift = 2|min(0, gamma_1, ...)|, the
+    list completed by sqrt(a - sum L^dag L) (rate 0) when the L's are not
+    complete."""
+
+    def __init__(self, spec):
+        self.spec = spec
+        self.d = spec["d"]
+        self.issuper = False
+        self.extra = []
+        self.Ls = [np.array(x, dtype=complex) for x in spec["ops"]]
+        self.gam = [_Rate(*r) for r in spec["rates"]]
+        op = sum(L.conj().T @ L for L in self.Ls)
+        a_c = np.trace(op).real / self.d
+        if np.allclose(op, a_c * np.eye(self.d), rtol=1e-5, atol=1e-8):
+            self.a = float(a_c)
+        else:
+            ev, U = np.linalg.eigh(op)
+            self.a = float(ev.max())
+            M = self.a * np.eye(self.d) - op
+            ev2, U2 = np.linalg.eigh(M)
+            self.Ls.append(U2 @ np.diag(np.sqrt(np.clip(ev2, 0, None))) @ U2.conj().T)
+            self.gam.append(_Rate(0.0, 0.0, 0.0, 0.0))
+        self.nch = len(self.Ls)
+        self.cs = self.Ls
+
+    def shift(self, t):
+        return 2 * abs(min([0.0] + [gm(t) for gm in self.gam]))
+
+    def H(self, t):
+        return self.spec["H0"]
+
+    def cmat(self, k, t):
+        return math.sqrt(max(self.gam[k](t) + self.shift(t), 0.0)) * self.Ls[k]
+
+    def gnorm(self):
+        G = -1j * self.H(0.0)
+        return float(np.linalg.norm(G, 2)) + 0.5 * self.a * 4.0
+
+    def martingale(self, t0, t, collapses):
+        from scipy.integrate import quad
+        val = 0.0
+        if t > t0:
+            # break the integral at every sign change of a rate (kinks of the
+            # shift; a short negative excursion must not be stepped over)
+            pts = set(np.linspace(t0, t, 33)[1:-1].tolist())
+            for gm in self.gam:
+                if gm.c1 != 0.0 and gm.w != 0.0 and abs(gm.c0 / gm.c1) <= 1.0:
+                    th = math.asin(-gm.c0 / gm.c1)
+                    for base in (th, math.pi - th):
+                        k0 = int(math.floor((gm.w * t0 + gm.ph - base) / (2 * math.pi))) - 1
+                        k1 = int(math.ceil((gm.w * t + gm.ph - base) / (2 * math.pi))) + 1
+                        for k in range(k0, k1 + 1):
+                            z = (base + 2 * math.pi * k - gm.ph) / gm.w
+                            if t0 < z < t:
+                                pts.add(z)
+            grid = [t0] + sorted(pts) + [t]
+            for a_, b_ in zip(grid, grid[1:]):
+                v, _ = quad(self.shift, a_, b_, limit=200, epsabs=1e-13, epsrel=1e-12)
+                val += v
+        mu = math.exp(self.a * val)
+        for (tc, k) in collapses:
+            if t > tc:
+                gk = self.gam[k](tc)
+                mu *= gk / (gk + self.shift(tc))
+        return mu
+
+
+def run_nm(spec):
+    import qutip
+    from qutip.solver.nm_mcsolve import NonMarkovianMCSolver
+    ops_and_rates = []
+    for L, r in zip(spec["ops"], spec["rates"]):
+        rate = r[0] if (r[1] == 0.0) else qutip.coefficient(_Rate(*r))
+        ops_and_rates.append((qutip.Qobj(L), rate))
+    opts = {"method": spec["method"], "norm_tol": spec["norm_tol"],
+            "norm_t_tol": spec["norm_t_tol"], "norm_steps": spec["norm_steps"],
+            "keep_runs_results": True, "store_states": True, "progress_bar": "", "map": "serial",
+            # the shifted rates have kinks where a rate changes sign: keep the
+            # ODE error well below the jump-search tolerances
+            "atol": 1e-10, "rtol": 1e-8}
+    solver = NonMarkovianMCSolver(qutip.Qobj(spec["H0"]), ops_and_rates, options=opts)
+    e_ops = [qutip.sigmaz(), qutip.sigmax()]
+    res = solver.run(qutip.Qobj(spec["psi0"].reshape(2, 1)), spec["tlist"], ntraj=spec["ntraj"],
+                     seeds=spec["seed"], e_ops=e_ops)
+    return res, solver
+
+
+def check_nm(spec):
+    """nm_mcsolve: (1) every trajectory is the jump process with the shifted
+    rates; (2) its recorded martingale is exp(a*int shift) * prod gamma/(gamma+shift)
+    over its recorded collapses; (3) averages are the martingale-weighted means."""
+    ref = NmRef(spec)
+    stats = {"traj": 0, "jumps": 0}
+    bad = []
+    try:
+        res, solver = run_nm(spec)
+    except Exception as e:      # noqa
+        msg = "%s: %s" % (type(e).__name__, str(e)[:200])
+        if isinstance(e, RuntimeError) and "collapse time" in str(e):
+            stats["search_exhausted"] = 1
+            return [], stats
+        return [("nm-raised:" + type(e).__name__, msg, {"error": msg})], stats
+    tl = list(spec["tlist"])
+    opts = {"norm_tol": spec["norm_tol"], "norm_t_tol": spec["norm_t_tol"]}
+    a_impl = float(solver._martingale._a_parameter) if hasattr(solver, "_martingale") else None
+    if a_impl is not None and abs(a_impl - ref.a) > 1e-9:
+        bad.append(("nm-completeness-constant", "a = %r, sum L^dag L gives %r" % (a_impl, ref.a), {}))
+    if len(solver.ops) != ref.nch:
+        bad.append(("nm-completion-operator", "%d operators after completion, expected %d"
+                    % (len(solver.ops), ref.nch), {}))
+        return bad, stats
+    trajs = list(res.trajectories)
+    W = []
+    for i, tr in enumerate(trajs):
+        states = [s.full()[:, 0] for s in tr.states]
+        b = check_trajectory(ref, spec["psi0"], tl, res.seeds[i], opts, 0.0, False, tr.collapse, states)
+        bad += [("nm-" + s, m, d) for s, m, d in b]
+        stats["traj"] += 1
+        stats["jumps"] += len(tr.collapse)
+        cols = [(float(t), int(k)) for t, k in tr.collapse]
+        mu_ref = [ref.martingale(tl[0], t, cols) for t in tl]
+        mu = [float(x) for x in tr.trace]
+        W.append(mu)
+        for j, (x, y) in enumerate(zip(mu, mu_ref)):
+            # the implementation integrates the shift with scipy.quad at its
+            # default tolerance over kinks: allow quadrature error, nothing more
+            if abs(x - y) > 2e-6 * max(1.0, abs(y)):
+                bad.append(("nm-martingale-value",
+                            "trajectory %d, t=%r: recorded martingale %.12g, exp(a*int shift)*prod "
+                            "gamma/(gamma+shift) over its %d collapses gives %.12g"
+                            % (i, tl[j], x, len([c for c in cols if c[0] < tl[j]]), y),
+                            {"traj": i, "t": tl[j], "got": x, "expected": y, "collapses": cols}))
+                break
+    if bad:
+        return bad, stats
+    W = np.array(W)
+    N = len(trajs)
+    # trace weighting of the averages (C15's formula with weights mu_i(t))
+    avg_tr = np.asarray(res.average_trace, dtype=float)
+    if np.max(np.abs(avg_tr - W.mean(axis=0))) > 1e-10:
+        bad.append(("nm-average-trace", "average_trace is not the mean of the martingales", {}))
+    for k in range(2):
+        want = np.mean([W[i] * np.asarray(trajs[i].expect[k]) for i in range(N)], axis=0)
+        got = np.asarray(res.average_expect[k])
+        if np.max(np.abs(got - want)) > 1e-10:
+            bad.append(("nm-average-expect", "average_expect[%d] is not mean(martingale * expect): "
+                        "max deviation %.3g" % (k, float(np.max(np.abs(got - want)))), {}))
+    for j in range(len(tl)):
+        want = sum(W[i][j] * np.outer(trajs[i].states[j].full()[:, 0],
+                                      trajs[i].states[j].full()[:, 0].conj()) for i in range(N)) / N
+        got = res.average_states[j].full()
+        if np.max(np.abs(got - want)) > 1e-10:
+            bad.append(("nm-average-states", "average_states[%d] is not mean(martingale * |psi><psi|): "
+                        "max deviation %.3g" % (j, float(np.max(np.abs(got - want)))), {}))
+            break
+    return bad, stats
+
+
+def nm_spec_to_json(spec):
+    return spec_to_json(spec)
+
+
+def explore_nm_ensemble(ctx, rng):
+    """exploration: martingale-weighted ensemble mean vs the master equation
+    with (temporarily negative) rates, within 5 standard errors."""
+    import qutip
+    from qutip.solver.nm_mcsolve import NonMarkovianMCSolver
+    H = 0.5 * qutip.sigmaz() + 0.4 * qutip.sigmax()
+    r2 = _Rate(0.1, 0.4, 2.0, 0.5)
+    ops = [(qutip.sigmam(), 1.0), (qutip.sigmap(), qutip.coefficient(r2))]
+    tl = np.linspace(0, 2.5, 6)
+    e = [qutip.sigmaz(), qutip.sigmax()]
+    nt = 300 if ctx.quick else 3000
+    try:
+        s = NonMarkovianMCSolver(H, ops, options={"progress_bar": "", "keep_runs_results": True,
+                                                  "method": "vern7", "norm_steps": 20,
+                                                  "atol": 1e-10, "rtol": 1e-8})
+        res = s.run(qutip.basis(2, 0), tl, ntraj=nt, seeds=rng.randrange(1 << 30), e_ops=e)
+        L = qutip.QobjEvo([qutip.liouvillian(H, [qutip.sigmam()]),
+                           [qutip.lindblad_dissipator(qutip.sigmap()), qutip.coefficient(r2)]])
+        me = qutip.mesolve(L, qutip.basis(2, 0), tl, e_ops=e)
+    except RuntimeError as ex:
+        if "collapse time" in str(ex):
+            ctx.notes.append("exploration: nm_mcsolve ensemble not evaluated (collapse-time search "
+                             "exhausted norm_steps on one trajectory) [NUM]")
+            return
+        raise
+    except Exception as ex:      # noqa
+        ctx.violation("nm_mcsolve:ensemble-vs-mesolve", "raised:" + type(ex).__name__,
+                      "exploration: nm_mcsolve raised %s: %s" % (type(ex).__name__, str(ex)[:120]),
+                      {"kind": "nm-ensemble"})
+        return
+    worst = 0.0
+    for k in range(2):
+        vals = np.array([np.asarray(tr.trace, dtype=float) * np.asarray(tr.expect[k]).real
+                         for tr in res.trajectories])
+        se = np.maximum(vals.std(axis=0) / math.sqrt(nt), 1e-3)
+        worst = max(worst, float(np.max(np.abs(vals.mean(axis=0) - np.asarray(me.expect[k])) / se)))
+    ctx.count_case(("nm-ensemble",), nontrivial=False)
+    ctx.notes.append("exploration: nm_mcsolve ensemble (ntraj=%d, negative rate phases) vs mesolve: "
+                     "worst deviation %.2f standard errors" % (nt, worst))
+    if worst > 5.0:
+        ctx.violation("nm_mcsolve:ensemble-vs-mesolve", "mean-off-by-more-than-5-sigma",
+                      "exploration: martingale-weighted ensemble average deviates from mesolve by "
+                      "%.1f standard errors" % worst, {"kind": "nm-ensemble", "worst_sigma": worst})
